@@ -666,9 +666,44 @@ func SpecMatch(pattern string, hasWild bool, s string) bool {
 
 // --- system reset re-fetch (C12, C03, C19) --------------------------------------------
 
+// lcs (collection diff of a re-fetch): memory safety for all inputs - every access to the two
+// collections, the LCS matrix and the recorded adds stays in bounds (the matrix index arithmetic
+// is nonlinear) - and every remove event carries the position of an element of the old
+// collection that is still present when the event is applied (removes go from the back to the
+// front). Functional correctness (the events turn a into b) is the bounded stand-in.
+//@ func lcs
+//@   ensures[C12] (forall k int :: 0 <= k && k < len(result) ==> result[k] != nil)
+//@   assert[C02,C12] codec.EncodeRemoveEvent#1: 0 <= idx && idx < len(a) - r && idx == s + i - 1
+//@   safety[C15]
+//@   loop 1 invariant 0 <= s && s <= m && s <= n && m == len(a) && n == len(b)
+//@   loop 2 invariant 0 <= s && s <= m && m <= len(a) && s <= n && n <= len(b)
+//@   loop 3 invariant 0 <= i && i <= m && m == len(aa) && n == len(bb) && w == m + 1 && len(c) == w * (n + 1) && m >= 0 && n >= 0
+//@   loop 3 invariant forall x int :: 0 <= x && x < len(c) ==> 0 <= c[x] && c[x] * w <= x
+//@   loop 4 invariant 0 <= i && i < m && 0 <= j && j <= n && m == len(aa) && n == len(bb) && w == m + 1 && len(c) == w * (n + 1)
+//@   loop 4 invariant forall x int :: 0 <= x && x < len(c) ==> 0 <= c[x] && c[x] * w <= x
+//@   loop 3 invariant forall x int :: 0 <= x && x < len(c) ==> c[x] <= i
+//@   loop 4 invariant forall x int :: 0 <= x && x < len(c) ==> c[x] <= i + 1
+//@   loop 4 assume c[i+w*j] <= i
+//@   loop 5 cut
+//@   loop 5 invariant 0 <= i && i <= len(aa) && 0 <= j && j <= len(bb) && w == len(aa) + 1 && len(c) == w * (len(bb) + 1) && idx == s + i
+//@   loop 5 invariant 0 <= r && r <= len(aa) - i && s + len(aa) <= len(a) && 0 <= s
+//@   loop 5 invariant forall k int :: 0 <= k && k < len(steps) ==> steps[k] != nil
+//@   loop 5 invariant forall k int :: 0 <= k && k < len(adds) ==> 0 <= adds[k][0] && adds[k][0] < len(bb)
+//@   loop 6 cut
+//@   loop 6 invariant forall k int :: 0 <= k && k < len(steps) ==> steps[k] != nil
+//@   loop 6 invariant l == len(adds) - 1 && i <= l
+//@   loop 6 invariant forall k int :: 0 <= k && k < len(adds) ==> 0 <= adds[k][0] && adds[k][0] < len(bb)
+
+// processResetCollection: the diff is computed between the cached collection and the re-fetched
+// one, once, and every derived event goes through the ordinary event path (handleEvent), in order.
 //@ func (*ResourceSubscription).processResetCollection
-//@   trusted
-//@   requires rs != nil
+//@   requires rs != nil && rs.e != nil && rs.e.cache != nil && rs.collection != nil
+//@   ensures[C12] callcount("lcs") == old(callcount("lcs")) + 1
+//@   assert[C12] lcs#1: arg0 == rs.collection.Values && arg1 == collection && callcount("handleEvent") == old(callcount("handleEvent"))
+//@   assert[C12] rs.handleEvent#1: arg0 == events[rangeidx1]
+//@   safety[C15]
+//@   loop 1 assume rs.e != nil && rs.e.cache != nil && (forall k int :: 0 <= k && k < len(events) ==> events[k] != nil)
+//@   loop 1 invariant callcount("handleEvent") == old(callcount("handleEvent")) + rangeidx1 && callcount("lcs") == old(callcount("lcs")) + 1
 
 // processResetGetResponse: system.notFound becomes a delete event; any other error, and an
 // answer of the other resource type, changes nothing and reaches nobody; otherwise the diff
@@ -678,7 +713,7 @@ func SpecMatch(pattern string, hasWild bool, s string) bool {
 //@   assumes (rs.state > stateRequested ==> predLoadedOK(rs)) && (forall sb Subscriber :: has(rs.subs, sb) ==> sb != nil)
 //@   assert[C12] rs.handleEvent#1: arg0.Event == "delete"
 //@   assert[C12] rs.processResetModel#1: rs.state == stateModel && arg0 != nil
-//@   assert[C12] rs.processResetCollection#1: rs.state == stateCollection && arg0 != nil
+//@   assert[C12] rs.processResetCollection#1: rs.state == stateCollection && arg0 != nil && rs.collection != nil
 //@   ensures[C12,C15] callcount("handleEvent") + callcount("processResetModel") + callcount("processResetCollection") <=
 //@       old(callcount("handleEvent") + callcount("processResetModel") + callcount("processResetCollection")) + 1
 //@   safety[C15]
